@@ -833,8 +833,9 @@ Definition run_op (o : op) (args : list tval) : ores :=
       | _, _ => OErr EType
       end
   | ONarrowM z st len =>
-      (* ImageBatch.narrow: dim normalised; dim == 0 -> grid[start : start + length]; dim > 1 -> every grid narrowed
-         (not modelled); dim == 1 leaves the grids as they are *)
+      (* ImageBatch.narrow: dim and start normalised (st is the start after `if start < 0: start += self.shape[dim]`);
+         dim == 0 -> grid[start : start + length]; dim > 1 -> every grid narrowed (not modelled); dim == 1 leaves the
+         grids as they are *)
       match t_kind cur, data_sem o [sh] with
       | TBatch fl gs, DOne d =>
           let z' := if (z <? 0)%Z then (z + Z.of_nat (ndim sh))%Z else z in
